@@ -16,6 +16,7 @@
   the hypothesis `loopGuardsFresh` it was asked with, `exec_respects_derivation_any_guard` drops it.
 -/
 import Mwp.Lemmas.ExecSound
+import Mwp.Lemmas.EndToEnd
 namespace Mwp.Props.C03
 open Mwp Mwp.Spec
 
@@ -73,6 +74,33 @@ theorem exec_respects_composition (U : List Var) (hU : U.Nodup) (cmd : Cmd)
     (hAfin : ∀ i, i < U.length → ∀ j, j < U.length → SMat.get A i j ≠ .i)
     (hR : Respects U σ A) : Respects U σ' (SMat.mul A M) :=
   ExecSound.exec_respects_mul U hU cmd hv idx c k M hs fuel path p' σ σ' he A hA hAfin hR
+
+/-- End to end on the model: FuncOk function, any valid choice of the reported choice object, any
+    execution (any branch outcomes / loop counts): the exact final value of every variable has the
+    shape the reported bound triple prescribes.  (`Mwp.reported_bounds_hold`: a valid choice is a
+    derivation — C01 —, a derivation is respected by every execution — (S4) above —, and
+    `Analysis.boundAt` lists column `x` of the applied matrix.) -/
+theorem reported_bounds_respected (node : Node) (stop : Bool) (r : Analysis.FuncRes)
+    (hok : Refine.FuncOk node = true) (h : Analysis.func node stop = .ok r)
+    (cmd : Cmd) (hd : desugarFunc node = some cmd) (hf : r.infinite = false)
+    (rel : Relation) (hr : r.relation = some rel) (ch : Choices.T) (hc : r.choices = some ch)
+    (c : Choice) (hlen : c.length = cmd.arity) (hc3 : ∀ v ∈ c, v < 3)
+    (hv : Choices.isValid ch c = true)
+    (fuel : Nat) (path p' : Path) (σ : Store) (he : exec fuel cmd path [] = some (p', σ)) :
+    ∀ x m w p, (x, m, w, p) ∈ Analysis.boundAt rel c → Shape (σ.get x) m w p = true :=
+  Mwp.reported_bounds_hold node stop r hok h cmd hd hf rel hr ch hc c hlen hc3 hv fuel path p' σ he
+
+/-- the same without assuming that the analysis succeeds (it does on a FuncOk function); a finite
+    result has at least one valid choice -/
+theorem reported_bounds_respected_total (node : Node) (stop : Bool)
+    (hok : Refine.FuncOk node = true) (cmd : Cmd) (hd : desugarFunc node = some cmd) :
+    ∃ r, Analysis.func node stop = .ok r ∧
+      (r.infinite = false → ∃ rel ch, r.relation = some rel ∧ r.choices = some ch ∧
+        (∃ c : Choice, c.length = cmd.arity ∧ (∀ v ∈ c, v < 3) ∧ Choices.isValid ch c = true) ∧
+        ∀ c : Choice, c.length = cmd.arity → (∀ v ∈ c, v < 3) → Choices.isValid ch c = true →
+          ∀ (fuel : Nat) (path p' : Path) (σ : Store), exec fuel cmd path [] = some (p', σ) →
+            ∀ x m w p, (x, m, w, p) ∈ Analysis.boundAt rel c → Shape (σ.get x) m w p = true) :=
+  Mwp.reported_bounds_hold_total node stop hok cmd hd
 
 /-! ## non-vacuity -/
 
